@@ -148,6 +148,7 @@ def built_st(tier):
             io=_io_st,
             empty=st.sampled_from([None] * 11 + [0]),
             pair=st.one_of(st.none(), st.none(), _pair_st),
+            relabel=st.sampled_from([False, False, True]),
         )
     )
 
@@ -704,6 +705,17 @@ def check_built(case, ctx):
     if case.get("pair"):
         sk = _with_pair(sk, case["pair"])
     base = ctx.call("history:build", gen.build, sk)
+    if case.get("relabel"):
+        # same rows in time order, but row labels permuted the library's own way: a list built out of order
+        # (here: back to front), then sorted() - which keeps the labels
+        def _relabel(ms):
+            for m in ms.maps:
+                for name in ("bpms", "hits", "holds", "rolls", "mines"):
+                    lst = getattr(m, name)
+                    setattr(m, name, type(lst)(lst.df.iloc[::-1].reset_index(drop=True)).sorted())
+
+        ctx.call("history:relabel", _relabel, base)
+        ctx.label("row-labels-permuted")
     if case["rate"]:
         _base_domain(ctx, base, "built")
     x = _rated(ctx, base, case["rate"])
